@@ -26,18 +26,39 @@ def slug (s : String) : String := String.ofList (s.toList.map fun c => if c.isAl
 /-- names (lower-cased) that mention the canary prefix at all -/
 def suspicious (names : List (List Char)) : List (List Char) := (names.map lower).filter (isInfix ['z', 'q'])
 
-/-- does the document contain the canary token in one of its raw (unescaped) payload forms? -/
-def rawHit (doc tok : List Char) : Bool :=
-  isInfix ('<' :: tok) doc || isInfix ('&' :: tok ++ [';']) doc || isInfix ('"' :: ' ' :: tok) doc
-    || isInfix ('"' :: '_' :: tok) doc || isInfix ('\'' :: ' ' :: tok) doc || isInfix ('\'' :: '_' :: tok) doc
-    || isInfix ('<' :: '!' :: '-' :: '-' :: tok) doc
+def hasMeta (s : List Char) : Bool := s.any fun c => c = '<' || c = '&' || c = '"' || c = '\''
 
-/-- field of the first canary that occurs raw in the document (attribution of a well-formedness failure) -/
+/-- the generator's mapping of a gradient stop position (svgr/gen.go `Color`) -/
+def mapGrad (s : List Char) : List Char :=
+  s.map fun c => if c = ',' || c = '(' || c = ')' || c = ' ' || c = '\t' || c = '\n' || c = '\r' || c.toNat = 11 || c.toNat = 12
+    || c.toNat = 0x85 || c.toNat = 0xA0 then '_' else c
+
+/-- drop a trailing `&xyz` (it would also match the beginning of an escaped `&amp;xyz…`) -/
+def stripTrailingRef (s : List Char) : List Char :=
+  let r := s.reverse.dropWhile fun c => c.isAlphanum || c = '#'
+  match r with
+  | '&' :: rest => rest.reverse
+  | _ => s
+
+/-- fields whose user string (containing a markup character) occurs verbatim, i.e. unescaped, in the document -/
+def rawFields (doc : List Char) (cans : Array Json) : List String :=
+  let hits := cans.toList.filterMap fun c =>
+    match getStr c "s", getStr c "field", getStr c "tok" with
+    | .ok s, .ok field, .ok tok =>
+      let sl := stripTrailingRef s.toList
+      let t := tok.toList
+      -- sound evidence of unescaped emission: the string itself (when it does not occur inside its own escaped form),
+      -- or the token directly after a raw `<` / `&` / `<!--`
+      let verbatim := hasMeta sl && !sl.contains '\n' && !isInfix sl (escapeText sl) && (isInfix sl doc || (field == "gradpos" && isInfix (mapGrad sl) doc))
+      if verbatim || isInfix ('<' :: t) doc || isInfix ('&' :: t) doc || isInfix ('<' :: '!' :: '-' :: '-' :: t) doc
+      then some field else none
+    | _, _, _ => none
+  (hits.eraseDups.toArray.qsort (· < ·)).toList
+
 def rawField (doc : List Char) (cans : Array Json) : Option String :=
-  cans.findSome? fun c =>
-    match getStr c "tok", getStr c "field" with
-    | .ok tok, .ok field => if rawHit doc tok.toList then some field else none
-    | _, _ => none
+  match rawFields doc cans with
+  | [] => none
+  | fs => some ("+".intercalate fs)
 
 def handleSvg (i o : Json) : Except String Verdict := do
   match getStr o "svg" with
